@@ -1,6 +1,7 @@
 """C06 - resources never exceed capacity, grant in queue order, never idle a slot."""
 import re
-from harness import kprops
+from harness import kprops, kbridge
+from harness.kbridge import EXTRA_MODULES, TRUSTED_EXTRA, prepare
 from vlib.util import unbits
 ASSUMPTIONS = ['each process holds or awaits at most one request per resource at a time; holders release before they terminate',
                'requests are created inside processes (PreemptiveResource needs the requesting process)']
@@ -98,6 +99,8 @@ def oracle_release_completes(case, lines, runner=None):
     return []
 
 def run(ctx):
-    return kprops.run_kernel(ctx, 'C06', SPEC, 1500, 40000, oracles=[oracle_capacity_and_idle, oracle_grant_order, oracle_release, oracle_preemption, oracle_release_completes],
+    res = kprops.run_kernel(ctx, 'C06', SPEC, 1500, 40000, oracles=[oracle_capacity_and_idle, oracle_grant_order, oracle_release, oracle_preemption, oracle_release_completes],
                              nontrivial=lambda c, lines: any('q[' in l and 'q[]' not in l for l in lines),
                              rule='seeded request/hold/release/cancel/with-exit histories of 2-8 processes on 1-2 resources of the three classes; non-trivial = distinct history in which some request had to queue')
+    res['coverage'].update(kbridge.coverage('C06'))
+    return res
